@@ -202,6 +202,74 @@ func C11(r *h.Run) {
 		}
 	}
 
+	// ---- a receiver that calls Receive again after the stream has ended (it keeps reporting
+	// the end): the trailers it can then look at are what the handler set, each value once ----
+	for _, proto := range protos {
+		for _, failing := range []bool{false, true} {
+			var copts []connect.ClientOption
+			switch proto {
+			case "grpc":
+				copts = append(copts, connect.WithGRPC())
+			case "grpcweb":
+				copts = append(copts, connect.WithGRPCWeb())
+			}
+			copts = append(copts, connect.WithCodec(h.ToyCodec{}))
+			mux := http.NewServeMux()
+			mux.Handle("/verif.Svc/Bidi", connect.NewBidiStreamHandler("/verif.Svc/Bidi", func(_ context.Context, st *connect.BidiStream[h.Raw, h.Raw]) error {
+				st.ResponseTrailer().Add("X-T", "a")
+				st.ResponseTrailer().Add("X-T", "b")
+				for {
+					if _, err := st.Receive(); err != nil {
+						break
+					}
+				}
+				_ = st.Send(&h.Raw{B: []byte("m")})
+				if failing {
+					e := connect.NewError(connect.CodeAborted, errors.New("stop"))
+					e.Meta().Add("X-E", "e1")
+					return e
+				}
+				return nil
+			}, connect.WithCodec(h.ToyCodec{})))
+			cl := connect.NewClient[h.Raw, h.Raw](&h.LocalClient{Handler: mux}, "http://verif.local/verif.Svc/Bidi", copts...)
+			var trailerVals, metaVals, metaE []string
+			var extra int
+			p := safely(func() {
+				st := cl.CallBidiStream(context.Background())
+				_ = st.Send(&h.Raw{B: []byte("q")})
+				_ = st.CloseRequest()
+				var last error
+				for i := 0; i < 6; i++ {
+					if _, err := st.Receive(); err != nil {
+						last = err
+						extra++
+					}
+				}
+				trailerVals = st.ResponseTrailer().Values("X-T")
+				var ce *connect.Error
+				if errors.As(last, &ce) {
+					metaVals, metaE = ce.Meta().Values("X-T"), ce.Meta().Values("X-E")
+				}
+				_ = st.CloseResponse()
+			})
+			in := map[string]any{"proto": proto, "kind": "bidi", "handler": "sets trailer X-T: a, b; sends one message; " + map[bool]string{false: "returns nil", true: "returns aborted with metadata X-E: e1"}[failing],
+				"client": "Send, CloseRequest, then Receive six times (the last five report the end of the stream)"}
+			r.Eval("receive_after_end", fmt.Sprint(proto, failing))
+			r.Sample("receive_after_end", map[string]any{"in": in, "response_trailer_X-T": trailerVals, "error_meta_X-T": metaVals, "failed_receives": extra})
+			if p != nil {
+				r.Fail(h.Failure{Key: "metadata/panic-or-hang", Family: "receive_after_end", What: fmt.Sprint(p), Input: in})
+				continue
+			}
+			want := []string{"a", "b"}
+			if fmt.Sprint(trailerVals) != fmt.Sprint(want) {
+				r.Fail(h.Failure{Key: "metadata/response-trailer", Family: "receive_after_end", What: "after further Receive calls at the end of the stream the response trailers are not the values the handler set (each once, in order)", Input: in, Expected: want, Actual: trailerVals})
+			}
+			if failing && (fmt.Sprint(metaVals) != fmt.Sprint(want) || fmt.Sprint(metaE) != fmt.Sprint([]string{"e1"})) {
+				r.Fail(h.Failure{Key: "metadata/error-metadata", Family: "receive_after_end", What: "the metadata of the error reported by a later Receive is not what the handler set (each value once)", Input: in, Expected: map[string]any{"X-T": want, "X-E": []string{"e1"}}, Actual: map[string]any{"X-T": metaVals, "X-E": metaE}})
+			}
+		}
+	}
+
 	// ---- unary Connect at the HTTP boundary: the Trailer- mapping (model cases) ----
 	for i := 0; i < r.N(60, 600); i++ {
 		resH, resT := genMeta(rng, "X-Res"), genMeta(rng, "X-Trl")
